@@ -56,12 +56,62 @@ class FakeFile:
         return False
 
 
+def _key_names(path):
+    out = []
+    for k in path:
+        out.append(str(getattr(k, "key", getattr(k, "name", getattr(k, "idx", k)))))
+    return tuple(out)
+
+
+def _untargeted(state):
+    """what orbax returns for restore(path) without a target: nested dict, every key a string"""
+    root = {}
+    for p_, leaf in jax.tree_util.tree_flatten_with_path(state)[0]:
+        names = _key_names(p_)
+        d = root
+        for n_ in names[:-1]:
+            d = d.setdefault(n_, {})
+        d[names[-1]] = leaf
+    return root
+
+
+def _validate_orbax_contract(rep, scratch):
+    """One real orbax save/restore of a small module: the stub's untargeted result must have exactly the key
+    structure of the real one (stub validation; a mismatch is a harness error, not a finding)."""
+    import shutil
+    import orbax.checkpoint as ocp
+    m = zoo.mlp(2, 1, (2, 2), 0)
+    st = nnx.state(m)
+    path = os.path.join(scratch, "orbax_contract")
+    shutil.rmtree(path, ignore_errors=True)
+    try:
+        ck = ocp.StandardCheckpointer()
+        ck.save(path, st)
+        ck.wait_until_finished()
+        real = ocp.PyTreeCheckpointer().restore(path)
+    finally:
+        pass
+
+    def keys(d, pre=()):
+        out = set()
+        for k, v in d.items():
+            out |= keys(v, pre + (k,)) if isinstance(v, dict) else {pre + (k,)}
+        return out
+    ok = keys(real) == keys(_untargeted(st)) and all(isinstance(x, str) for kp in keys(real) for x in kp)
+    shutil.rmtree(path, ignore_errors=True)
+    rep.r.extra["orbax_restore_contract_validated_against_real_orbax"] = bool(ok)
+    if not ok:
+        raise RuntimeError("orbax stub does not reproduce the key structure of a real untargeted restore")
+
+
 def module_cases(seed):
     from rl_blox.blox.function_approximator.gaussian_mlp import GaussianMLP
     from rl_blox.blox.function_approximator.policy_head import GaussianTanhPolicy
     x2 = jnp.asarray([[0.3, -0.7]])
     return {
         "MLP": (zoo.mlp(2, 2, (2,), seed), lambda m: m(x2)),
+        # more than ten list entries: an index-keyed restore must not order them as strings ("10" < "2")
+        "MLP[11 hidden layers]": (zoo.mlp(2, 1, (1,) * 11, seed, "tanh"), lambda m: m(x2)),
         "LayerNormMLP": (zoo.ln_mlp(2, 1, (2,), seed), lambda m: m(x2)),
         "DeterministicTanhPolicy": (zoo.tanh_policy(2, 1, (2,), seed), lambda m: m(x2)),
         "GaussianTanhPolicy": (GaussianTanhPolicy(GaussianMLP(True, 2, 1, [2], "relu", nnx.Rngs(seed)), zoo.box(1)), lambda m: m(x2)),
@@ -78,8 +128,14 @@ def _modules(rep, sess, tier, seed):
     from rl_blox.util import serialize
     scratch = os.path.join(os.path.dirname(os.path.dirname(os.path.abspath(__file__))), ".scratch")
     os.makedirs(scratch, exist_ok=True)
+    _validate_orbax_contract(rep, scratch)
 
     class RecCk:
+        """Recording stand-in for the orbax checkpointers, with orbax's restore contract (validated against the real
+        library by _validate_orbax_contract): restore(path) WITHOUT a target returns a plain nested dict whose keys are
+        all strings (list indices too, variable values under 'value'); restore(path, item=target) returns the target's
+        structure with the saved leaves matched by key."""
+
         def __init__(self):
             self.saved = {}
 
@@ -89,8 +145,13 @@ def _modules(rep, sess, tier, seed):
         def wait_until_finished(self):
             pass
 
-        def restore(self, path):
-            return self.saved[str(path)]
+        def restore(self, path, item=None, **kw):
+            saved = self.saved[str(path)]
+            flat = {_key_names(p_): l for p_, l in jax.tree_util.tree_flatten_with_path(saved)[0]}
+            if item is None:
+                return _untargeted(saved)
+            tp, td = jax.tree_util.tree_flatten_with_path(item)
+            return jax.tree_util.tree_unflatten(td, [flat[_key_names(p_)] for p_, _ in tp])
 
     for name, (net, fwd) in module_cases(seed).items():
         gdef, st = nnx.split(net)
@@ -121,8 +182,11 @@ def _modules(rep, sess, tier, seed):
             import orbax.checkpoint as real_ocp
             old = real_ocp.PyTreeCheckpointer
             real_ocp.PyTreeCheckpointer = lambda: rec
+            # the module handed to restore_checkpoint only describes the structure: every variable value (trainable or
+            # not) must come from the checkpoint, so the template gets different values throughout
+            tmpl = nnx.merge(gdef, jax.tree_util.tree_map(lambda x: x * 0 + 7, state))
             try:
-                m2 = pe.restore_checkpoint(path, m)
+                m2 = pe.restore_checkpoint(path, tmpl)
             finally:
                 real_ocp.PyTreeCheckpointer = old
             return nnx.state(m2), fwd(m2), fwd(m)
